@@ -26,6 +26,7 @@ func init() {
 			{ID: "C14.4", Desc: "maintenance API addresses the same keys and bytes", Run: ruleC14_4, MinSites: 3},
 			{ID: "C14.5", Desc: "file-name codec agreement", Run: ruleC14_5, MinSites: 2},
 			{ID: "C14.6", Desc: "prefix listing filters the decoded key", Run: ruleC14_6, MinSites: 1},
+			{ID: "C14.8", Desc: "Set can create its temporary file for every key (its name does not extend the entry's file name)", Run: func(c *Ctx) { ruleC15_1(c); renameRule(c, "C15.1", "C14.8") }, MinSites: 1},
 			{ID: "C14.7", Desc: "a file name returned as one path component is bounded by the file-name limit", Run: ruleC14_7, MinSites: 1},
 		},
 	})
@@ -344,6 +345,23 @@ func (c *Ctx) sliceBacking(v ssa.Value) []string {
 			if callIsPkgFunc(&x.Call, "bytes", "Clone") || callIsPkgFunc(&x.Call, "slices", "Clone") {
 				set["fresh"] = true
 				return
+			}
+			// append-to-dst APIs: cipher.AEAD.Seal/Open(dst, ...) and slices.Grow(s, n) return dst's array or a fresh one
+			if x.Call.IsInvoke() && (x.Call.Method.Name() == "Seal" || x.Call.Method.Name() == "Open") && len(x.Call.Args) == 4 {
+				set["fresh"] = true
+				rec(x.Call.Args[0])
+				return
+			}
+			if sc := x.Call.StaticCallee(); sc != nil {
+				n := sc.String()
+				if o := sc.Origin(); o != nil {
+					n = o.String()
+				}
+				if strings.HasPrefix(n, "slices.Grow") && len(x.Call.Args) == 2 {
+					set["fresh"] = true
+					rec(x.Call.Args[0])
+					return
+				}
 			}
 			if sc := x.Call.StaticCallee(); sc != nil && c.P.IsRepoFunc(sc) && len(sc.Blocks) > 0 {
 				for _, b := range sc.Blocks {
@@ -752,6 +770,28 @@ func ruleC14_6(c *Ctx) {
 			} else {
 				c.Fail("C14.6", "prefix-on-decoded-key", "key listing compares the decoded key with the requested prefix", where+": second argument is not the prefix parameter")
 			}
+		})
+	}
+	// the name handed to the decoder is the path relative to the cache root: obtained by removing a prefix, never by
+	// trimming a character set (strings.Trim/TrimLeft/TrimRight with a computed second argument eat leading characters of
+	// the encoded name that merely occur in the directory path)
+	for _, fn := range c.P.RepoFuncs {
+		if fn.Pkg != fp && !(fn.Parent() != nil && fn.Parent().Pkg == fp) {
+			continue
+		}
+		instrsOf(fn, func(in ssa.Instruction) {
+			cc := callOf(in)
+			if cc == nil || len(cc.Args) != 2 {
+				return
+			}
+			if !(callIsPkgFunc(cc, "strings", "TrimLeft") || callIsPkgFunc(cc, "strings", "TrimRight") || callIsPkgFunc(cc, "strings", "Trim")) {
+				return
+			}
+			if _, isConst := cc.Args[1].(*ssa.Const); isConst {
+				return
+			}
+			where := c.P.ShortName(fn) + "@" + c.P.InstrPos(in)
+			c.Fail("C14.6", "cutset-trim fn="+c.P.ShortName(fn), "paths are made relative by removing a prefix, not by trimming a set of characters", where+": "+cc.Value.Name()+" treats its second argument as a set of characters; every leading character of the encoded file name that occurs anywhere in the directory path is removed too, so the listing returns wrong keys or fails to decode")
 		})
 	}
 	if n == 0 {
